@@ -323,7 +323,7 @@ def cases(tier, seed):
             if tier == "quick" and n == 5 and (idx + seed) % 3:
                 continue
             yield {"kind": "shape", "n": n, "idx": idx, "seed": seed}
-    for i in range(600 if tier == "quick" else 12000):
+    for i in range(4000 if tier == "quick" else 20000):
         yield {"kind": "random", "i": i, "seed": seed}
 
 
